@@ -179,6 +179,17 @@ class AbsExec:
             env[t.id] = v
         elif isinstance(t, (ast.Tuple, ast.List)):
             vals = list(self.iterate(v, t))
+            stars = [i for i, x in enumerate(t.elts) if isinstance(x, ast.Starred)]
+            if len(stars) == 1 and len(vals) >= len(t.elts) - 1:
+                # `*head, last = seq` / `first, *rest = seq`
+                i = stars[0]
+                after = len(t.elts) - i - 1
+                for x, val in zip(t.elts[:i], vals[:i]):
+                    self.assign(x, val, env)
+                self.assign(t.elts[i].value, list(vals[i:len(vals) - after]), env)  # type: ignore[attr-defined]
+                for x, val in zip(t.elts[i + 1:], vals[len(vals) - after:]):
+                    self.assign(x, val, env)
+                return
             if len(vals) != len(t.elts):
                 raise Undecided(f"{self.where}:{t.lineno}: cannot unpack {len(vals)} values into {len(t.elts)} targets")
             for x, y in zip(t.elts, vals):
@@ -458,6 +469,18 @@ class AbsExec:
         return Obj(cls_name, dict(fields))
 
     def call(self, e: ast.Call, env: dict) -> Any:
+        # itertools.accumulate(seq[, operator.mul | operator.add][, initial=v]) over concrete integers
+        if ast.unparse(e.func).split(".")[-1] == "accumulate" and e.args and ast.unparse(e.func).split(".")[-1] not in env:
+            seq = list(self.iterate(self.eval(e.args[0], env), e))
+            fn = e.args[1] if len(e.args) > 1 else next((k.value for k in e.keywords if k.arg == "func"), None)
+            fname = ast.unparse(fn).split(".")[-1] if fn is not None else "add"
+            init = next((self.eval(k.value, env) for k in e.keywords if k.arg == "initial"), None)
+            if fname in ("mul", "add") and not any(isinstance(x, (Tok, Obj)) for x in [*seq, init]):
+                out_: list = [] if init is None else [init]
+                for x in seq:
+                    out_.append(x if not out_ else self.binop(ast.Mult() if fname == "mul" else ast.Add(), out_[-1], x, e))
+                return out_
+            raise Undecided(f"{self.where}:{e.lineno}: accumulate over {fname} / opaque values")
         args: list = []
         for a in e.args:
             if isinstance(a, ast.Starred):
